@@ -870,6 +870,35 @@ fn enumerate_variant_and_container(c: &mut Collector) {
             }
         }
     }
+    // options on the forwarded magic fields (`attrs`, `data`): only `with` is known, once
+    for tr in ALL_TR {
+        if !tr.element_level() {
+            continue;
+        }
+        let sp = [occ("with", "with = conv", true), occ("with", "with = other", true), occ("rename", "rename = \"q\"", true), occ("skip", "skip", true), occ("default", "default", true)];
+        let magic: &[&str] = if tr == Tr::DeriveInput { &["attrs", "data"] } else { &["attrs"] };
+        for m in magic {
+            for a in &sp {
+                for b in sp.iter().map(Some).chain(std::iter::once(None)) {
+                    let seq: Vec<Occ> = std::iter::once(a.clone()).chain(b.cloned()).collect();
+                    for split in splits(&seq) {
+                        let mut f = plain_field(m);
+                        f.ty = "X".into();
+                        f.attrs = split;
+                        let mut d = Decl {
+                            tr,
+                            cattrs: vec![vec![occ("attributes", "attributes(x)", true), occ("forward_attrs", "forward_attrs", true)]],
+                            generics: String::new(),
+                            body: Body::Named(vec![plain_field("a"), f]),
+                            src: String::new(),
+                        };
+                        render(&mut d);
+                        judge(&d, "enumerated-forwarded-field-options", c);
+                    }
+                }
+            }
+        }
+    }
     // the word rules across a whole enum: every assignment of {-, word, word = true, word = false}
     // to three unit variants, with and without a container `from_word`
     let spell = [None, Some(("word", true)), Some(("word = true", true)), Some(("word = false", false))];
